@@ -43,7 +43,7 @@ RULE = ('per configuration (key type, key universe, source in fresh/literal/chai
         'traces = shortest history of every state replayed from scratch (direct + through Interpreter.run_code). '
         'non-trivial = distinct (configuration, pre-state, operation) where the operation writes, or reads a key that is '
         'bound on chain or was written before')
-BOUND = {'quick': 'key type int: |K|=2 and |K|=3, on-chain values {absent,2}, literal values {absent,0,1}, all 4 sources, '
+BOUND = {'quick': 'key types int (|K|=2 and |K|=3) and string (|K|=3), on-chain values {absent,2}, literal values {absent,0,1}, all 4 sources, '
                   'closure of the state graph (reached at depth <= 2|K|+1; caps: depth 8, 5*4^|K| states per configuration)',
          'thorough': '12 key types (int, string, pair, bytes, address, nat, mutez, key_hash, option, or, 3-comb, chain_id) with '
                      '|K|=3, on-chain values {absent,0,2}; int keys with |K|=4, on-chain values {absent,2}; literal values '
@@ -94,7 +94,7 @@ def alphabet(nk):
 def configs(tier):
     out = []
     if tier == 'quick':
-        plan = [('int', 2, [None, 2]), ('int', 3, [None, 2])]
+        plan = [('int', 2, [None, 2]), ('int', 3, [None, 2]), ('string', 3, [None, 2])]
         cap = 8
     else:
         plan = [(kt, 3, [None, 0, 2]) for kt in KEYTYPES] + [('int', 4, [None, 2])]
